@@ -68,6 +68,7 @@ var innerLabel = map[string]bool{
 type gate struct {
 	coarse   bool
 	demand   string // the on-demand label this episode's schedule names ("" if none)
+	quiet    bool   // free-running flood episodes: client calls and worker-function entries are not logged
 	mu       sync.Mutex
 	gated    bool // false: free-running (M3): hooks only log the observable events
 	active   atomic.Bool
@@ -238,7 +239,7 @@ func (g *gate) fillArgs(e event, label string, a []any) {
 // point is a harness-level gate point (client op boundaries, worker function entry/exit).
 // The calling goroutine must be registered, or be a pool goroutine known from serve.recv.
 func (g *gate) point(label string, kv ...any) {
-	if !g.active.Load() {
+	if !g.active.Load() || g.quiet {
 		return
 	}
 	id := goid()
@@ -268,7 +269,7 @@ func (g *gate) point(label string, kv ...any) {
 
 // logOnlyPoint records an observable event without parking (used for "ret": the call has returned).
 func (g *gate) note(label string, kv ...any) {
-	if !g.active.Load() {
+	if !g.active.Load() || g.quiet {
 		return
 	}
 	id := goid()
